@@ -1,5 +1,6 @@
 """Anchors and shared checks for the threaded pipeline (Pipe::new worker protocol), used by C05, C08 and C09."""
 from analysis.engine import AnchorMissing, Definite
+from analysis.facts import norm_path
 from analysis import cfg
 from analysis.sym import sym, show_in, nosite, peel, core, walk, ret_values, args_of, guards_at, atoms_at, \
     variant_facts_at, cmp_facts_at, variant_edges
@@ -53,6 +54,12 @@ def worker(ctx):
         w.spawn_via = recv[0]
     w.body = closure_of(ctx, clo_tree)
     w.captures = clo_tree[3]
+    # the shared input: Mutex::new(iter.enumerate()). A crate type in its place means the ticket numbering is implemented some other
+    # way (a hand-written counter): none of the protocol roles below can be assigned
+    for t in new.calls(r'Mutex::new$'):
+        x = peel(sym(new, t.args[0]))
+        if isinstance(x, tuple) and x and x[0] == 'agg' and x[1] == 'adt' and norm_path(x[2].rsplit('::', 1)[0]) in ctx.facts.adts:
+            raise AnchorMissing('the shared input is wrapped in the crate type `%s` instead of an Enumerate: the tickets are numbered some other way' % x[2].rsplit('::', 1)[0])
     b = w.body
     # ticket: the next() on the shared enumerated iterator, reached through the mutex
     from analysis.sym import init_value as _iv
